@@ -30,6 +30,8 @@ hands to the constructors accordingly (`SPELLINGS` lists what the constructors a
   "<comp>.text":    comp ∈ title subline page_header page_footer footnote source: "str" (one line only) | "list" | "tuple"
   "headers.text":   the cell texts of every header row: "list" | "tuple" | "frame" (a one-row polars frame) |
                     "str" (applies to one-cell rows)
+  "body.<opt>":     opt ∈ group_by page_by subline_by (the column-name arguments of RTFBody; every body of a multi
+                    document): "list" | "tuple" | "str" (applies to exactly one column name: the bare string)
 """
 from __future__ import annotations
 
@@ -226,7 +228,26 @@ SPELLINGS = {
     "sections": ("list",),
     "headers.text": ("list", "tuple", "frame", "str"),
     **{f"{c}.text": ("str", "list", "tuple") for c in TEXT_COMPONENTS},
+    **{f"body.{c}": ("list", "tuple", "str") for c in ("group_by", "page_by", "subline_by")},
 }
+BODY_NAME_ARGS = ("group_by", "page_by", "subline_by")
+
+
+def _body_kw(d, sp):
+    """constructor kwargs of one RTFBody; the column-name arguments in the container spelling sp["body.<opt>"]"""
+    kw = _kw(d)
+    for c in BODY_NAME_ARGS:
+        how = (sp or {}).get(f"body.{c}")
+        v = (d or {}).get(c)
+        if how is None or not isinstance(v, list):
+            continue
+        if how == "tuple":
+            kw[c] = tuple(v)
+        elif how == "str" and len(v) == 1:
+            kw[c] = v[0]
+        else:
+            kw[c] = list(v)
+    return kw
 
 
 def _lines(v):
@@ -355,11 +376,11 @@ def build(spec, workdir: str | None = None):
                                          **_kw(fig))
     elif kind == "multi":
         kw["df"] = [make_frame(f) for f in spec["df"]]
-        kw["rtf_body"] = [rtf.RTFBody(**_kw(b)) for b in spec["body"]]
+        kw["rtf_body"] = [rtf.RTFBody(**_body_kw(b, sp)) for b in spec["body"]]
     else:
         kw["df"] = make_frame(spec["df"])
         if spec.get("body") is not None:
-            kw["rtf_body"] = rtf.RTFBody(**_kw(spec["body"]))
+            kw["rtf_body"] = rtf.RTFBody(**_body_kw(spec["body"], sp))
         if sp.get("sections") == "list":
             # the same table handed over as a one-section list (rtf_body must then be a list too)
             kw["df"] = [kw["df"]]
